@@ -12,7 +12,7 @@ RULE = ('cases = (model in {ising, xxz spin-1/2, xxz spin-1, bose-hubbard d=1..5
         'independently from {0, +-1, +-0.5, generic floats in +-[0.1,3], tiny 1e-22..1e-5 and huge 1e3..1e6 magnitudes} so that vanishing couplings and sign changes are frequent; complex coefficient vectors with zeros for the '
         'linear fermionic operators). Non-trivial: reference operator non-zero and L >= 2. Identically-zero operators are outside the domain and only counted.')
 ASSUME = ['reference operators are built in the harness from occupation-number states / spin matrices (Jordan-Wigner sign = parity of occupied modes to the right)',
-          'dense reach d^L <= 1024 (thorough 4096); tolerance 1e-12 max(1, ||H_ref||)']
+          'dense reach d^L <= 1024 (thorough 2048); tolerance 1e-12 max(1, ||H_ref||)']
 
 PARAM = st.one_of(st.sampled_from([0.0, 1.0, -1.0, 0.5, -0.5]), st.sampled_from([0.0, 1.0, -1.0]),
                   st.floats(0.1, 3.0), st.floats(-3.0, -0.1),
@@ -140,7 +140,7 @@ def check_model(case, rec):
 
 @st.composite
 def gen_model(draw, tier):
-    cap = 1024 if tier == 'quick' else 4096
+    cap = 1024 if tier == 'quick' else 2048
     m = draw(st.sampled_from(['ising', 'xxz', 'xxz1', 'bose', 'fermi_hubbard', 'linear_c', 'linear_a']))
     d = {'ising': 2, 'xxz': 2, 'xxz1': 3, 'fermi_hubbard': 4, 'linear_c': 2, 'linear_a': 2}.get(m)
     case = {'model': m}
@@ -173,5 +173,5 @@ def gen_model(draw, tier):
 
 
 PARTS = [
-    Part('models', check_model, strategy=gen_model, n={'quick': 250, 'thorough': 3000}, workers={'quick': 4, 'thorough': 16}),
+    Part('models', check_model, strategy=gen_model, n={'quick': 250, 'thorough': 1500}, workers={'quick': 4, 'thorough': 16}),
 ]
